@@ -18,6 +18,7 @@ GEN = os.path.join(VERIF, "gen")
 # messages that are verdicts of the verifier about the code (semantic failures)
 SEMANTIC = [
     ("postcondition not satisfied", "postcondition"),
+    ("unable to prove post-condition of closure", "postcondition"),
     ("precondition not satisfied", "precondition"),
     ("invariant not satisfied", "invariant"),
     ("assertion failed", "assertion"),
